@@ -164,6 +164,15 @@ unsigned int __wrap_sleep(unsigned int seconds)
 	struct sim *s = CUR_SIM;
 	int old;
 
+#ifdef VERIF_LIBFUZZER
+	if (!s) {
+		/* --wrap=sleep also redirects the fuzzing runtime's own housekeeping thread: that one really sleeps and
+		 * must not touch the virtual clock */
+		extern unsigned int __real_sleep(unsigned int);
+
+		return __real_sleep(seconds);
+	}
+#endif
 	if (!s) {
 		/* a socket that is not driven by a simulator (dummy transport): behave like a short real sleep and
 		 * stay a cancellation point so that rtr_stop() can end the thread */
